@@ -69,7 +69,7 @@ var isolatedDir string
 
 // CleanupIsolated removes the private directories of an extra-overlay run.
 func CleanupIsolated() {
-	if isolatedDir != "" {
+	if isolatedDir != "" && os.Getenv("VERIF_KEEP_BUILD") == "" {
 		os.RemoveAll(isolatedDir)
 	}
 }
